@@ -312,6 +312,13 @@ type ipv6HeaderTLVOption struct {
 }
 
 func (h *ipv6HeaderTLVOption) serializeTo(data []byte, fixLengths bool, dryrun bool) int {
+	if h.OptionType == 0 {
+		// Pad1 is a single zero octet: it has neither a length octet nor data
+		if !dryrun {
+			data[0] = 0
+		}
+		return 1
+	}
 	if fixLengths {
 		h.OptionLength = uint8(len(h.OptionData))
 	}
@@ -325,6 +332,10 @@ func (h *ipv6HeaderTLVOption) serializeTo(data []byte, fixLengths bool, dryrun b
 }
 
 func decodeIPv6HeaderTLVOption(data []byte, df gopacket.DecodeFeedback) (h *ipv6HeaderTLVOption, _ error) {
+	if len(data) == 1 && data[0] == 0 {
+		// a Pad1 option may be the very last octet of the header
+		return &ipv6HeaderTLVOption{ActualLength: 1}, nil
+	}
 	if len(data) < 2 {
 		df.SetTruncated()
 		return nil, errors.New("IPv6 header option too small")
